@@ -162,6 +162,20 @@ func §E() {
 	rt.MoveNext()
 	tr.V(180, rt.Result())
 
+	// a Bind continuation that forwards to a function VARIABLE / method value / field which changes between
+	// building the Seq and running it
+	nextStep := func() seq.Seq[int] { return seq.Bind(-1, seq.Normal[int]) }
+	viaVar := seq.Bind(1, func() seq.Seq[int] { return nextStep() })
+	hb := &§feed{}
+	stepOf := func(f *§feed) func() seq.Seq[int] {
+		return func() seq.Seq[int] { f.n++; return seq.Bind(f.n*7, seq.Normal[int]) }
+	}
+	steps := map[string]func() seq.Seq[int]{"k": stepOf(hb)}
+	viaMap := seq.Bind(2, func() seq.Seq[int] { return steps["k"]() })
+	nextStep = func() seq.Seq[int] { return seq.Bind(-2, seq.Normal[int]) }
+	steps["k"] = func() seq.Seq[int] { return seq.Bind(-3, seq.Normal[int]) }
+	§drain(185, seq.Combine(viaVar, viaMap))
+
 	// the effectful argument sits one or two levels below the call the Delay returns
 	c := 10
 	yv := func(tag, x int) seq.Seq[int] { tr.V(tag, x); return seq.Bind(x, seq.Normal[int]) }
@@ -450,6 +464,13 @@ for i := 0; i < 2; i++ {
 	tr.U(str.ToUpper("dead"))
 }
 RETNIL`, "imports", "import-two-names-one-dead"), "strings", "str strings"),
+		alone(G("opt-dot-import-only-used-by-dead-code", `
+for i := 0; i < 2; i++ {
+	YIELD(i)
+	continue
+	tr.U(SearchInts([]int{1, 2}, 2))
+}
+RETNIL`, "imports"), ". sort"),
 		alone(G("opt-seq-import-of-the-user-only-used-by-dead-code", `
 for i := 0; i < 2; i++ {
 	YIELD(i)
